@@ -74,6 +74,27 @@ Proof.
   rewrite IH; [reflexivity|]. intros Hin. apply H. right. exact Hin.
 Qed.
 
+(** Split is compositional over a blank, and it inverts the joining of blank-free words by single
+    blanks: the names written after `atlas:nolint`, one blank apart, are exactly the rule elements. *)
+Lemma split_sp_app a b0 : split_sp (a ++ 32%N :: b0) = split_sp a ++ split_sp b0.
+Proof.
+  induction a as [|c a IH]; [reflexivity|]. simpl.
+  destruct (is_blank c); [rewrite IH; reflexivity|].
+  rewrite IH. destruct (split_sp a) as [|w ws] eqn:Hs; [exfalso; eapply split_sp_nonempty; eauto|].
+  reflexivity.
+Qed.
+
+Lemma split_sp_join_words ws :
+  ws <> [] -> (forall w, In w ws -> ~ In 32%N w) -> split_sp (join_sp ws) = ws.
+Proof.
+  induction ws as [|w ws IH]; [intros H; contradiction|]. intros _ Hw.
+  destruct ws as [|w2 ws].
+  - simpl. apply split_sp_word. apply Hw. left. reflexivity.
+  - change (join_sp (w :: w2 :: ws)) with (w ++ 32%N :: join_sp (w2 :: ws)).
+    rewrite split_sp_app, split_sp_word by (apply Hw; left; reflexivity).
+    rewrite IH; [reflexivity|discriminate|]. intros x Hx. apply Hw. right. exact Hx.
+Qed.
+
 (** What an empty element means.  It stands for a blank at the start or the end of the argument or
     for two blanks in a row; it is never equal to a code or a class name, so it silences nothing by
     itself -- but it is an element: a list that holds it next to anything else is not the bare form. *)
